@@ -438,6 +438,16 @@ async fn app_flow_expect_failure(client_port: u16, kind: LocalKind, host: &str, 
     }
 }
 
+/// A flow to a port that refuses: the application leaves as soon as the relay lets go of it (at most 2 s).
+async fn app_flow_refused(client_port: u16, kind: LocalKind, host: &str, port: u16) {
+    let Some(mut s) = connect(client_port).await else { return };
+    if tokio::time::timeout(Duration::from_secs(4), local_handshake(&mut s, kind, host, port)).await.map(|r| r.is_ok()).unwrap_or(false) {
+        let _ = s.write_all(b"GET / HTTP/1.0\r\n\r\n").await;
+        let mut b = [0u8; 64];
+        let _ = tokio::time::timeout(Duration::from_secs(2), s.read(&mut b)).await;
+    }
+}
+
 async fn apply(f: Fault, e: &mut Env, rng: &mut Rng, rep: &mut Report) -> Held {
     use Fault::*;
     let mut h: Held = Vec::new();
@@ -550,6 +560,24 @@ async fn apply(f: Fault, e: &mut Env, rng: &mut Rng, rep: &mut Report) -> Held {
                 }
             }
             rep.mon("exhaustion_connections_opened", v.len() as u64);
+            if f == LocalDescriptorExhaustion {
+                // some of the applications behind those connections do ask for a flow while the client has no descriptor to
+                // spare: whatever the client tries to open for them (certificate file, socket) fails NOW - and only now
+                let tp = e.target.port;
+                let n = v.len();
+                let mut picks: Vec<usize> = (0..n.min(8)).chain((n / 2)..(n / 2 + 8).min(n)).chain(n.saturating_sub(130)..n.saturating_sub(122)).collect();
+                picks.dedup();
+                let mut asked = 0u64;
+                for i in picks {
+                    if let Some(s) = v.get_mut(i) {
+                        if let Ok(Ok(())) = tokio::time::timeout(Duration::from_millis(1500), local_handshake(s, LocalKind::Socks5V4, "127.0.0.1", tp)).await {
+                            let _ = s.write_all(b"is anybody there?").await;
+                            asked += 1;
+                        }
+                    }
+                }
+                rep.mon("flows_asked_for_during_descriptor_exhaustion", asked);
+            }
             tokio::time::sleep(Duration::from_millis(700)).await;
             let pid = if f == SrvDescriptorExhaustion { e.pair.server.pid } else { e.pair.client.pid };
             let fds = procfs::fd_count(pid).total();
@@ -939,8 +967,21 @@ async fn apply(f: Fault, e: &mut Env, rng: &mut Rng, rep: &mut Report) -> Held {
                         }
                     }
                     2 => {
-                        let kind = [LocalKind::Socks5V4, LocalKind::HttpConnect, LocalKind::Socks5Domain][(k / 4) % 3];
-                        let _ = tokio::time::timeout(Duration::from_secs(6), app_flow_expect_failure(cp, kind, if kind == LocalKind::Socks5V4 { "127.0.0.1" } else { "localhost" }, dead)).await;
+                        // eight flows at a time to a port that refuses (520 refused dials in all)
+                        let mut hs = Vec::new();
+                        for j in 0..8usize {
+                            let kind = [LocalKind::Socks5V4, LocalKind::HttpConnect, LocalKind::Socks5Domain][(k / 4 + j) % 3];
+                            hs.push(tokio::spawn(async move {
+                                let _ = tokio::time::timeout(Duration::from_secs(6), app_flow_refused(cp, kind, if kind == LocalKind::Socks5V4 { "127.0.0.1" } else { "localhost" }, dead)).await;
+                            }));
+                        }
+                        for h in hs {
+                            let _ = h.await;
+                        }
+                        applied += 7;
+                        if k % 40 == 2 {
+                            let _ = tokio::time::timeout(Duration::from_secs(6), app_flow_expect_failure(cp, LocalKind::Socks5Domain, "no-such-host.invalid", 80)).await;
+                        }
                     }
                     _ => {
                         if let Some(mut s) = connect(cp).await {
@@ -1000,10 +1041,17 @@ fn witness(e: &Env, history: &[Fault], fault: Fault, symptom: &str) -> Value {
 
 /// Fresh pair, only `faults`, then the service check. Ok(None) = service fine; Ok(Some(symptom)) = reproduced.
 async fn isolated(a: &Args, idx: usize, sub: &str, proto: Proto, transport: Transport, udp: bool, faults: &[Fault], rep: &mut Report) -> Result<Option<(String, Value)>, String> {
+    isolated_x(a, idx, sub, proto, transport, udp, faults, rep, false).await
+}
+
+/// `virgin`: the faults are the FIRST thing that happens to the two processes (no flow has gone through them before).
+async fn isolated_x(a: &Args, idx: usize, sub: &str, proto: Proto, transport: Transport, udp: bool, faults: &[Fault], rep: &mut Report, virgin: bool) -> Result<Option<(String, Value)>, String> {
     let mut rng = Rng::derive(a.seed, 0xC08, idx as u64);
     let mut e = start_env(a, idx, sub, proto, transport, udp, &mut rng).await?;
-    if let Err(s) = service_check(&mut e, 3, rep).await {
-        return Err(format!("fresh pair is not serviceable: {s}"));
+    if !virgin {
+        if let Err(s) = service_check(&mut e, 3, rep).await {
+            return Err(format!("fresh pair is not serviceable: {s}"));
+        }
     }
     let mut held_all: Vec<Held> = Vec::new();
     let mut last = *faults.last().unwrap();
@@ -1042,6 +1090,24 @@ async fn one_config(a: Args, idx: usize, proto: Proto, transport: Transport, udp
     if let Err(s) = service_check(&mut e, 3, &mut rep).await {
         rep.violation(format!("C08|{}|no-fault|{}", cfgname, s), format!("{cfgname}: the service does not work before any fault: {s}"), witness(&e, &[], Fault::SrvConnectClose, &s));
         return rep;
+    }
+    // a fault as the very first thing in the life of both processes (whatever a process sets up lazily at its first flow -
+    // configurations, caches, pools - is set up under the fault): fresh pairs, no flow before the fault
+    for f in [Fault::LocalDescriptorExhaustion, Fault::SrvDescriptorExhaustion, Fault::LinkStalledTcpFlows] {
+        if !f.applicable(&e) {
+            continue;
+        }
+        rep.mon("faults_applied_as_the_first_thing_in_the_life_of_the_processes", 1);
+        rep.case(&(idx, "virgin", f.name()), true);
+        if let Ok(Some((s1, w))) = isolated_x(&a, idx, "virgin", proto, transport, udp, &[f], &mut rep, true).await {
+            // believed when it comes back on another fresh pair
+            if let Ok(Some((s2, _))) = isolated_x(&a, idx, "virgin2", proto, transport, udp, &[f], &mut rep, true).await {
+                let _ = s1;
+                rep.violation(format!("C08|{}|first-thing-in-the-life-of-the-processes:{}|{}", cfgname, f.name(), symptom_class(&s2)), format!("{cfgname}: with {} as the first thing that happens to fresh processes the service stays impaired afterwards: {}", f.name(), s2), w);
+            } else {
+                rep.inconclusive(format!("a failing canary after {} on virgin processes did not come back on another fresh pair", f.name()));
+            }
+        }
     }
     let mut history: Vec<Fault> = Vec::new();
     let mut reported: HashSet<Fault> = HashSet::new();
